@@ -70,6 +70,17 @@ func init() {
 		}
 		return NoneType{}, nil
 	}, 0, "update(*others) -- update a set with the union of itself and others")
+
+	SetType.Dict["discard"] = MustNewMethod("discard", func(self Object, args Tuple) (Object, error) {
+		setSelf := self.(*Set)
+		var item Object
+		err := UnpackTuple(args, nil, "discard", 1, 1, &item)
+		if err != nil {
+			return nil, err
+		}
+		delete(setSelf.items, item)
+		return NoneType{}, nil
+	}, 0, "discard(value) -- remove an element from a set if it is a member")
 }
 
 // Add an item to the set
